@@ -20,7 +20,25 @@ POLICIES = ["on_t_sample", "on_iteration", "on_interval", "no_sampling"]
 COST = {"I": 1, "N1": 1, "N2": 2, "N3": 3, "R0": 1, "R1": 1, "R2": 2, "R3": 3, "RU": 10 ** 6, "N0": 0}
 
 
-def script_spec(engine, gtype, policy, n, seed=11):
+def script_spec(engine, gtype, policy, n, seed=11, variant=None):
+    """variant: None | 'units' (non-default script units incl. a non-molecule quantity unit)
+                     | 'redist' (real-valued initial state with an odd number of entries >= 100, default processing)"""
+    sc = _script_spec(engine, gtype, policy, n, seed)
+    if variant == "units":
+        sc["units"] = ["µm", "s", "nmol"]
+        sc["system"]["units"] = ["µm", "s", "molecule"]
+    elif variant == "redist":
+        st = sc["system"]["state"]
+        # an odd number (3) of entries >= 100 (normal-approximation branch), spread over the cells of one species so
+        # that the redistributed state really depends on the draws
+        sc["system"]["state"] = [150.5, 120.25, 212.75, 0.0][:len(st)] if engine != "gillespie" else [150.5, 120.25, 212.75, 0.5][:len(st)]
+        sc["isp"] = "auto"
+        if engine == "gillespie":
+            sc["t_max"] = 0.002
+    return sc
+
+
+def _script_spec(engine, gtype, policy, n, seed=11):
     space = ({"type": "grid", "w": 2, "h": 1, "d": 1, "vol": 1.0} if gtype == "grid" else
              {"type": "graph", "nodes": [{"vol": 1.0, "env": 0}, {"vol": 2.0, "env": 0}], "edges": [[0, 1, 1.5, 0.75]]})
     if engine == "gillespie":
@@ -201,7 +219,7 @@ def check_history(case):
     out = []
     prev, this = case["prev"], tuple(case["this"])
     n = 4
-    sc = script_spec(this[0], this[1], case["policy"], n)
+    sc = script_spec(this[0], this[1], case["policy"], n, variant=case.get("variant"))
     base = get_baseline(sc, this[0])
     if base[0] != "ok":
         return [("C08:baseline:%s" % base[0], str(base[1]))]
@@ -211,7 +229,9 @@ def check_history(case):
         e_prev = None
         if prev is not None:
             prev = tuple(prev)
-            psc = script_spec(prev[0], prev[1], "on_iteration", 3, seed=5)
+            psc = script_spec(prev[0], prev[1], "on_iteration", 3, seed=5, variant=case.get("variant"))
+            if case.get("variant") == "redist":
+                psc["system"]["state"] = psc["system"]["state"][:2] + [3.25, 7.0]      # a different number of large entries
             e_prev = eng.make_engine(prev[0])
             run_plain(e_prev, models.build_script(psc))
             if case["finalize_prev"]:
@@ -267,8 +287,31 @@ def check_seed(case):
     return out
 
 
+def check_given_seed(case):
+    """An explicitly given seed is kept, and the script built twice from the same description gives the same trajectory."""
+    out = []
+    engine, gtype = case["engine"], case["gtype"]
+    try:
+        res = []
+        for rep in range(2):
+            sc = script_spec(engine, gtype, "on_iteration", 4, seed=case["given_seed"], variant="redist")
+            script = models.build_script(sc)
+            if script.rng_seed != case["given_seed"]:
+                out.append(("C08:seed:given-seed-not-kept", "rng_seed=%r became %r" % (case["given_seed"], script.rng_seed)))
+                return out
+            (t, d), o = run_plain(eng.make_engine(engine), script)
+            res.append((t, d))
+        if res[0] != res[1]:
+            out.append(("C08:seed:same-description-same-seed-different-trajectory:%s" % engine, "seed %r" % case["given_seed"]))
+    except Exception as ex:
+        out.append(("C08:seed:unexpected-exception", "%s: %s" % (type(ex).__name__, ex)))
+    return out
+
+
 def check_case(case):
     case = dict(case)
+    if case["sub"] == "given-seed":
+        return check_given_seed(case)
     if case["sub"] in ("schedule", "n0"):
         return check_schedule(case)
     if case["sub"] == "history":
@@ -285,7 +328,7 @@ def _work(job):
     for case in _CASES[lo:hi]:
         c = dict(case)
         lc.announce("%s %r" % (c["sub"], {k: v for k, v in c.items() if k != "sub"}))
-        res = check_case(c) if c["sub"] != "seed" else check_seed(c)
+        res = check_seed(c) if c["sub"] == "seed" else check_case(c)
         nops = len(c.get("ops", [])) if c["sub"] in ("schedule", "n0") else 4
         acc.add(states=1, transitions=nops, traces=1, evaluations=1, nontrivial=1 if nops > 1 else 0)
         acc.count("cases:" + c["sub"])
@@ -341,7 +384,11 @@ def gen_cases(tier, seed0):
                     if prev is None and not fin:
                         continue
                     for pol in (("on_t_sample", "on_iteration") if tier == "thorough" else ("on_t_sample",)):
-                        hist.append({"sub": "history", "prev": prev, "this": list(this), "same_object": same, "finalize_prev": fin, "policy": pol})
+                        for var in (None, "units", "redist"):
+                            c = {"sub": "history", "prev": prev, "this": list(this), "same_object": same, "finalize_prev": fin, "policy": pol}
+                            if var:
+                                c["variant"] = var
+                            hist.append(c)
     cases += hist
     seeds = []
     for (e, g) in KINDS:
@@ -349,14 +396,20 @@ def gen_cases(tier, seed0):
             for r in range(1000 * seed0, 1000 * seed0 + (2 if tier == "quick" else 8)):
                 seeds.append({"sub": "seed", "engine": e, "gtype": g, "policy": p, "pyseed": r})
     cases += seeds
+    given = []
+    for (e, g) in KINDS:
+        for sd in (0, 1, 2 ** 31 - 1, 2 ** 31, 2 ** 32 - 1):
+            given.append({"sub": "given-seed", "engine": e, "gtype": g, "given_seed": sd})
+    cases += given
     sizes = [("driver schedules: all %d ways to consume a %d-iteration run with iterate / iterate_n(1..3) / run(0) / clock-scripted "
               "run slices of 1..3 iterations / run-to-completion x %d scripts (engines x space types x policies)" % (nsch, n, len(scripts)),
               nsch * len(scripts)),
              ("driver schedules of a 7-iteration run (%d each) x 3 scripts" % (len(n7) // 3 if n7 else 0), len(n7)),
              ("iterate_n(0) inserted at every position of every schedule of a 2-iteration run x 6 kinds", len(n0)),
-             ("process histories: (previous kind or none) x this kind x same/new object x previous finalized or not, 3 repetitions", len(hist)),
+             ("process histories: (previous kind or none) x this kind x same/new object x previous finalized or not x {default, non-default output units, redistributed real-valued state}, 3 repetitions of the same script object", len(hist)),
              ("seeds: rng_seed=None drawn under random.seed(r), stored script reproduces, neighbour seed differs (stochastic) / "
-              "does not (Euler): 24 scripts x seed window", len(seeds))]
+              "does not (Euler): 24 scripts x seed window", len(seeds)),
+             ("explicitly given seeds {0, 1, 2^31-1, 2^31, 2^32-1} x 6 kinds: seed kept, same description twice => same trajectory", len(given))]
     return cases, sizes
 
 
